@@ -34,6 +34,19 @@ Theorem C16_registered_exactly_once :
     /\ forall d a f e, In (f, e) (invoke d a (snd (decorate (regs, c)))) -> In f (fst (decorate (regs, c))).
 Proof. exact registered_exactly_once. Qed.
 
+(* Objects decorated one after the other (the originals may be temporaries that die at once):
+   what each becomes and runs is independent of the others; registrations accumulate. *)
+Theorem C16_sequence_independent :
+  forall cs regs, decorate_all regs cs = (regs ++ flat_map register cs, map wrap cs).
+Proof. exact decorate_all_independent. Qed.
+
+Theorem C16_each_result_runs_its_own_functions :
+  forall cs regs n c d a, nth_error cs n = Some c ->
+    exists w, nth_error (snd (decorate_all regs cs)) n = Some w
+              /\ map fst (invoke d a w) = map fst (invoke d a c)
+              /\ forall f e, In (f, e) (invoke d a w) -> e = d + 1.
+Proof. exact each_result_runs_its_own_functions. Qed.
+
 (* Decorating the returned object again adds no wrapper layer and registers nothing. *)
 Theorem C16_idempotent :
   forall regs c, decorate (decorate (regs, c)) = decorate (regs, c).
